@@ -642,8 +642,9 @@ def shrink(case):
 def run(ctx, out, replay=None):
     # second tie: find_location / area_overlap re-translated from the current source and proved equal to the model
     from harness.props import c18
-    mult = 3 if c18.translation_tie(ctx, out, pid="C06") == "skipped" else 1
-    n = (4000 if ctx.quick() else 80000) * mult
+    # translator skipped: the correspondence budget is tripled (thorough tier: x1.5, to stay within its 15 minutes)
+    mult = (3 if ctx.quick() else 1.5) if c18.translation_tie(ctx, out, pid="C06") == "skipped" else 1
+    n = int((4000 if ctx.quick() else 60000) * mult)
     out.rule = ("trunk with 1-5 branches on random sides (flush with corners, partial extent), near misses (gap, overhang, "
                 "overlap, perturbation around eps), repeated rectangles, random layouts, degenerate thin rectangles, random "
                 "order; non-trivial = at least two rectangles; distinct by canonical hash.  Extra stream: equal areas (twins, rows of "
@@ -663,9 +664,9 @@ def run(ctx, out, replay=None):
     while len(cases) < n:
         cases.append(gen_case(ctx.rng))
     xrng = __import__("random").Random(f"C06-extra-{ctx.seed}")
-    for _ in range((300 if ctx.quick() else 4000) * mult):
+    for _ in range(int((300 if ctx.quick() else 2000) * mult)):
         cases.append(gen_extra(xrng))
-    nh = (1500 if ctx.quick() else 15000) * mult
+    nh = int((1500 if ctx.quick() else 8000) * mult)
     hrng = __import__("random").Random(f"C06-hist-{ctx.seed}")
     for _ in range(nh):
         cases.append(gen_hist(hrng))
